@@ -350,13 +350,87 @@ def cases(seed, tier):
                     'scheduler': prng.choice(['legacy', 'default']),
                     'uuid_seed': prng.randint(0, 10 ** 6),
                     'pseed': prng.randint(0, 10 ** 6)})
+    for k in range(8 if tier == 'quick' else 40):
+        prng = random.Random(rng.getrandbits(64))
+        out.append({'global_fn': True,
+                    'style': prng.choice(['yaql', 'jinja']),
+                    'clause': prng.choice(['on-success', 'on-complete']),
+                    'rounds': prng.randint(1, 3),
+                    'strategy': prng.choice(['fifo', 'random', 'lifo']),
+                    'scheduler': prng.choice(['legacy', 'default']),
+                    'uuid_seed': prng.randint(0, 10 ** 6),
+                    'pseed': prng.randint(0, 10 ** 6)})
     return out
+
+
+def global_fn_case(case, res):
+    """A global variable read through the function global(x) inside the
+    transition that republishes it: the publication expression reads the
+    old value, the guards of the same transition (evaluated right after the
+    publication, in the same engine transaction) must see the new one.  The
+    published values count the rounds, so what each guard saw is identified
+    by which task it routed to."""
+    import yaml as _yaml
+    R = case['rounds']
+    if case['style'] == 'yaql':
+        inc = '<% global(cnt) + 1 %>'
+        again = '<%% global(cnt) < %d %%>' % R
+        done = '<%% global(cnt) >= %d %%>' % R
+    else:
+        inc = '{{ global("cnt") + 1 }}'
+        again = '{{ global("cnt") < %d }}' % R
+        done = '{{ global("cnt") >= %d }}' % R
+    wf = {'type': 'direct', 'tasks': {
+        'init': {'action': 'verif.act', 'input': {'t': 'init'},
+                 'on-success': {'publish': {'global': {'cnt': 0}},
+                                'next': ['loop']}},
+        'loop': {'action': 'verif.act', 'input': {'t': 'loop'},
+                 case['clause']: {'publish': {'global': {'cnt': inc}},
+                                  'next': [{'loop': again}, {'end': done}]}},
+        'end': {'action': 'verif.act',
+                'input': {'t': 'end', 'x': {'cnt': '<% global(cnt) %>'}}}}}
+    text = _yaml.safe_dump({'version': '2.0', 'wf': wf},
+                           default_flow_style=False, sort_keys=False)
+    c = {'definitions': [{'kind': 'wf', 'text': text}],
+         'start': {'wf': 'wf', 'input': {}}, 'outcomes': [],
+         'strategy': {'name': case['strategy'], 'seed': case['pseed']},
+         'scheduler': case['scheduler'], 'uuid_seed': case['uuid_seed']}
+    run = ec.execute(c)
+    res['executions'] += 1
+    ec.merge_counts(res['events'], run.events)
+    ec.merge_counts(res['monitor_evaluations'], run.mon_evals)
+    res['interleavings'].append(run.ihash)
+    if run.inconclusive:
+        res['inconclusive'] = run.inconclusive
+        return res
+    for v in run.violations:
+        res['violations'].append(dict(v, global_fn=True))
+    res['monitor_evaluations']['global-function'] = \
+        res['monitor_evaluations'].get('global-function', 0) + 1
+    loops = len([t for t in run.rows['task'].values()
+                 if t['name'] == 'loop'])
+    seen = [ev['x'] for ev in run.world.rec.events
+            if ev['kind'] == 'ACTION_RUN' and ev['t'] == 'end']
+    if loops != R or seen != [{'cnt': R}]:
+        res['violations'].append({
+            'prop': 'C05', 'monitor': 'global-function',
+            'mech': 'global-function-sees-stale-value',
+            'msg': 'a counter republished globally as global(cnt) + 1 and '
+                   'read back through global(cnt) by the guards of the same '
+                   'transition (%s, %s): %d iterations of the loop instead '
+                   'of %d, the last task received %r' % (
+                       case['style'], case['clause'], loops, R, seen)})
+    res['keys'].append(['global-fn', case['style'], case['clause'], R,
+                        run.ihash])
+    return res
 
 
 def run_case(case):
     res = {'violations': [], 'executions': 0, 'keys': [], 'events': {},
            'monitor_evaluations': {'causal-publisher': 0},
            'interleavings': [], 'sample': None}
+    if case.get('global_fn'):
+        return global_fn_case(case, res)
     P = case['program']
     text = to_yaml(P)
     anc = ancestors(P)
